@@ -73,7 +73,7 @@ def main():
             'guard': 'SCOTT_GRIFFITHS_BITSTRING_VERIF',
             'enable': 'check.py sets SCOTT_GRIFFITHS_BITSTRING_VERIF=1 in its own environment; /repo is imported from its working tree (pure Python, nothing to build)',
             'baseline_off_cmd': 'cd /repo && env -u SCOTT_GRIFFITHS_BITSTRING_VERIF /venv/bin/python -m pytest -ra -q -p no:cacheprovider --timeout=900 --continue-on-collection-errors',
-            'source_commits': ['2a1e07b'],
+            'source_commits': ['2a1e07b', '6857b4c'],
             'add_only': True,
         },
         'engines': [{
